@@ -590,8 +590,11 @@ orc_program_add_constant_str (OrcProgram *program, int size,
   }
 
   for(j=0;j<program->n_const_vars;j++){
+    /* only a constant that was given the same name can be reused: the
+     * caller refers to the constant by that name afterwards */
     if (program->vars[ORC_VAR_C1 + j].value.i == program->vars[i].value.i &&
-        program->vars[ORC_VAR_C1 + j].size == size) {
+        program->vars[ORC_VAR_C1 + j].size == size &&
+        strcmp (program->vars[ORC_VAR_C1 + j].name, name) == 0) {
       return ORC_VAR_C1 + j;
     }
   }
